@@ -316,6 +316,7 @@ impl<'a> Workload<'a> {
                 return true;
             } else {
                 self.rep.count("legality_alarm_outside_C01", 1);
+                self.rep.set_add("legality_alarm_keys_outside_C01", &key);
             }
         }
         // focus-specific model-free monitors
